@@ -112,7 +112,8 @@ class SchedRun:
             size = sym_int('s%d' % k, self.cfg.get('smin', 1), self.cfg.get('smax'))
             # 'ctime': the creation-time field need not follow the arrival order (packets may have travelled differently)
             ctime = env.now if not self.cfg.get('ctime') else 1000 - k
-            pkt = mk_packet(self.Packet, ctime, size, k, flow_id=self.flows[k])
+            # a fresh int object per packet (ids parsed from a trace are equal, not identical; CPython caches only small ints)
+            pkt = mk_packet(self.Packet, ctime, size, k, flow_id=int(str(self.flows[k])))
             self.action += 1
             self.arrivals.append((pkt, env.now, group))
             self.held.append(pkt)
